@@ -346,7 +346,12 @@ pub fn run_check(ctx: &Ctx) -> i32 {
         let p = observer(enc);
         let us = units(enc);
         let safe: Vec<&Vec<u8>> = us.iter().filter(|u| safe_in_markup(u)).collect();
-        for (i1, t1) in us.iter().enumerate() {
+        // thorough: the first text position holds every PAIR of units (unit triples in the text)
+        let empty: Vec<u8> = vec![];
+        let thirds: Vec<&Vec<u8>> = if quick { vec![&empty] } else { std::iter::once(&empty).chain(us.iter()).collect() };
+        for (i1, t1a) in us.iter().enumerate() {
+          for t3 in &thirds {
+            let t1 = &[t1a.as_slice(), t3.as_slice()].concat();
             for (i2, t2) in us.iter().enumerate() {
                 // attribute / comment units rotate through the safe menu
                 let nu: &[u8] = if safe[i1 % safe.len()].iter().all(|b| *b != 0xFF && *b != 0xFE) { safe[i1 % safe.len()] } else { b"" };
@@ -382,6 +387,7 @@ pub fn run_check(ctx: &Ctx) -> i32 {
                 }
                 ctx.outcomes.insert(digest(&(enc.name(), r_enc(enc, &d.bytes))));
             }
+          }
         }
         // every safe unit in every markup position at once (name, value, comment) with a fixed text
         for u in &safe {
@@ -410,7 +416,7 @@ pub fn run_check(ctx: &Ctx) -> i32 {
         }
         ctx.sample(json!({"encoding": enc.name(), "units": us.iter().map(|u| hex(u)).collect::<Vec<_>>()}));
     });
-    ctx.level_done("(a) 36 encodings x unit pairs x every 1-cut, 2-cuts in the first bytes, byte-wise; every unit in name+value+comment position x every 1-cut and close 2-cuts");
+    ctx.level_done(if quick { "(a) 36 encodings x unit pairs x every 1-cut, 2-cuts in the first bytes, byte-wise; every unit in name+value+comment position x every 1-cut and close 2-cuts" } else { "(a) 36 encodings x unit TRIPLES (pair in the first text position) x every 1-cut, every 2-cut in the first 40 bytes, byte-wise; every unit in name+value+comment position x every 1-cut and close 2-cuts" });
     // long text
     par_for(encs.len(), 1, |ei| {
         let enc = encs[ei];
